@@ -3,6 +3,15 @@ EXTENDS ConfigRegistry, Json
 (* two databases with overlapping collection sets: A may own {c1} or {c1,c2}; B wants c2 (alone or with c3) *)
 CC2 == [d \in DBs |-> IF d = "A" THEN {{"c1"}, {"c1", "c2"}} ELSE {{"c2"}}]
 CC3 == [d \in DBs |-> IF d = "A" THEN {{"c1"}, {"c1", "c2"}} ELSE {{"c2"}, {"c2", "c3"}}]
+CCA == [d \in DBs |-> IF d = "A" THEN {{"c1"}} ELSE {}]
+NodeSym == Permutations(Nodes)
 Terminal == AllIdle /\ nops = MaxOps /\ nloads = MaxLoads
+(* counterexample export: the violated property predicate prints the behaviour that led to it *)
+Cex(name, ok) == ok \/ (PrintT(<<"CEX", ToJson([inv |-> name, steps |-> hist])>>) /\ FALSE)
+CexLoadAtomic == Cex("LoadAtomic", LoadAtomic)
+CexOwnershipExclusive == Cex("OwnershipExclusive", OwnershipExclusive)
+CexNoLostAck == Cex("NoLostAck", NoLostAck)
+CexRejectedIsNoop == Cex("RejectedIsNoop", RejectedIsNoop)
+CexRecoverable == Cex("Recoverable", Recoverable)
 BehaviourExport == (Len(hist) = MaxSteps \/ Terminal) => PrintT(<<"BEH", ToJson([steps |-> hist])>>)
 =============================================================================
